@@ -6,7 +6,8 @@ From Verif Require Import Common.V Common.Base Common.NegoText Common.NegoDigest
 Open Scope string_scope.
 
 Definition sig_Z (s : sigst) : Z :=
-  match s with Stable => 1 | HaveLocalOffer => 2 | HaveRemoteOffer => 3 | SigClosed => 6 end.
+  match s with Stable => 1 | HaveLocalOffer => 2 | HaveRemoteOffer => 3 | HaveLocalPranswer => 4
+             | HaveRemotePranswer => 5 | SigClosed => 6 end.
 Definition V_firing (f : firing) : V := VL [VZ (sig_Z (f_sig f)); VB (f_closed f)].
 
 (* one call: status, handler invocations during it (queue drained), the
